@@ -2,7 +2,7 @@
    The faithful model REFUTES the property: the batch's entries are separate writes and
    recovery accepts every checksum-valid prefix.  Known finding C08-batch-not-crash-atomic
    (design level: the repository's own docs promise only in-process atomicity). *)
-From W Require Import model.Base model.Engine model.EngineCfg spec.Queue spec.Crash proofs.EngineWF proofs.EngineW proofs.EngineMain proofs.EngineDisk proofs.CrashP proofs.EngineCrash.
+From W Require Import model.Base model.Engine model.EngineCfg spec.Queue spec.Crash proofs.EngineWF proofs.EngineW proofs.EngineMain proofs.EngineDisk proofs.CrashP proofs.EngineCrash proofs.EngineC06 proofs.EngineCrashR.
 
 Theorem c08_refuted : exists c s t es j, (j <= length es)%nat /\
     stream_of (batch_crash c s t es j) (t_id t) <> stream_of (batch_crash c s t es 0) (t_id t) /\
@@ -26,6 +26,15 @@ Theorem c08_only_prefixes : forall (c : Cfg) (m : mode) (be : backend) (ops : li
   exists k, (k <= length es)%nat /\ stream_of (batch_crash c s t es j) (t_id t) = stream_of s (t_id t) ++ firstn k es.
 Proof. exact crash_only_prefixes_reachable. Qed.
 
+(* ... and the same after ANY history WITH restarts outside block-id drift (any mode) *)
+Theorem c08_only_prefixes_after_restarts : forall (c : Cfg) (m : mode) (be : backend) (ops : list op) (t : topic) (es : list entry) (j : nat),
+  cfg_ok c -> outside_known (env_of c m be) init ops = true ->
+  N.of_nat (length (offered_all ops)) <= u64_max -> sum_len (offered_all ops) <= u64_max ->
+  batch_ok c t es ->
+  let s := exec (env_of c m be) init ops in
+  exists k, (k <= length es)%nat /\ stream_of (batch_crash c s t es j) (t_id t) = stream_of s (t_id t) ++ firstn k es.
+Proof. exact crash_only_prefixes_after_restarts. Qed.
+
 Theorem c08_acceptor_means : forall acked batch rec,
   c08_ok acked batch rec = true <-> (outs_are rec acked = true \/ outs_are rec (acked ++ batch) = true).
 Proof. exact c08_ok_spec. Qed.
@@ -43,3 +52,10 @@ Check c08_only_prefixes : forall (c : Cfg) (m : mode) (be : backend) (ops : list
   let s := exec (env_of c m be) init ops in
   exists k, (k <= length es)%nat /\ stream_of (batch_crash c s t es j) (t_id t) = stream_of s (t_id t) ++ firstn k es.
 Print Assumptions c08_only_prefixes.
+Check c08_only_prefixes_after_restarts : forall (c : Cfg) (m : mode) (be : backend) (ops : list op) (t : topic) (es : list entry) (j : nat),
+  cfg_ok c -> outside_known (env_of c m be) init ops = true ->
+  N.of_nat (length (offered_all ops)) <= u64_max -> sum_len (offered_all ops) <= u64_max ->
+  batch_ok c t es ->
+  let s := exec (env_of c m be) init ops in
+  exists k, (k <= length es)%nat /\ stream_of (batch_crash c s t es j) (t_id t) = stream_of s (t_id t) ++ firstn k es.
+Print Assumptions c08_only_prefixes_after_restarts.
